@@ -243,6 +243,19 @@ class ErrWorld(object):
                 pints.UniformLogPrior(0, 10)
                 for _ in range(c.get_n_parameters())]))
             self.obj['ctrl' + code] = c
+        # ... and from a user mechanistic model that already has a fixed parameter
+        # (Gaussian noise): likelihood, predictive model, controller
+        um = chi.ReducedMechanisticModel(ToyModel(3, 1))
+        um.fix_parameters({'p1': 0.8})
+        self.user['R'] = um
+        self.obj['llR'] = chi.LogLikelihood(
+            um, [chi.GaussianErrorModel()], [1.3, 2.1, 0.9], [0.3, 1.1, 1.9])
+        self.obj['predR'] = chi.PredictiveModel(um, [chi.GaussianErrorModel()])
+        c = chi.ProblemModellingController(um, [chi.GaussianErrorModel()])
+        c.set_data(df, output_observable_dict={'o0': 'o0'})
+        c.set_log_prior(pints.ComposedLogPrior(*[
+            pints.UniformLogPrior(0, 10) for _ in range(c.get_n_parameters())]))
+        self.obj['ctrlR'] = c
 
 
 ERR_POINTS = [np.array([0.9, 0.6, 0.4, 0.25]), np.array([1.3, 0.4, 0.7, 0.15])]
@@ -250,7 +263,7 @@ ERR_POINTS = [np.array([0.9, 0.6, 0.4, 0.25]), np.array([1.3, 0.4, 0.7, 0.15])]
 
 def err_ops():
     ops = []
-    for code in ERR_KINDS:
+    for code in list(ERR_KINDS) + ['R']:
         for k in (0, 1):
             ops.append(['x_call', 'll' + code, k])
             ops.append(['x_S1', 'll' + code, k])
@@ -264,6 +277,12 @@ def err_ops():
 
 def apply_err(world, op):
     kind, name, k = op
+    if kind == 'mut_xren' and name == 'R':
+        # the user re-fixes the fixed parameter of their own mechanistic model at
+        # another value (and fixes another one on top)
+        world.user['R'].fix_parameters({'p1': 1.9})
+        world.user['R'].fix_parameters({'p0': 0.4})
+        return ['mutated'], True
     if kind == 'mut_xren':
         # the user renames the parameters of their own error model
         em = world.user[name]
@@ -561,12 +580,40 @@ def _snapshot(r):
             for x in r]
 
 
+def _bitwise(a, b):
+    if len(a) != len(b):
+        return False
+    for x, y in zip(a, b):
+        if isinstance(x, str) or isinstance(y, str):
+            if x != y:
+                return False
+            continue
+        if not np.array_equal(np.asarray(x, dtype=float), np.asarray(y, dtype=float),
+                              equal_nan=True):
+            return False
+    return True
+
+
 def check_history(world, history, viol, where='same process'):
     retained = []       # (step, result object as returned, snapshot taken then)
+    first_seen = {}     # operation -> (step, snapshot): repeats are bit-identical
     for i, op in enumerate(history):
         got, clean = apply(world, op)
         if op[0].startswith('mut_'):
+            # (a reconfiguration in between: repeats are compared from here on)
+            first_seen = {}
             continue
+        key_ = tuple(op)
+        if op[0] != 'fail':
+            if key_ in first_seen and not _bitwise(got, first_seen[key_][1]):
+                viol.append({
+                    'sub': 'repeat_bits', 'message': 'operation %s on %s repeated '
+                    'in one history does not return the identical result (%s)'
+                    % (op[0], op[1], where), 'history': history, 'step': i,
+                    'expected': first_seen[key_][1], 'observed': _snapshot(got),
+                    'behaviour': 'repeat_bits:%s:%s' % (op[0], op[1])})
+                return False
+            first_seen.setdefault(key_, (i, _snapshot(got)))
         # results handed out earlier must not change under later evaluations
         for j, r_old, snap in retained:
             if not same(r_old, snap):
@@ -713,6 +760,15 @@ def build(tier, seed):
             for b in mids[::2]:
                 for c in ll_ops[1::2]:
                     hist.append({'ops': [a, b, c]})
+    # the same evaluation before and after another one (bit-identical repeats): every
+    # evaluation of the objects around numerically integrated models, every other
+    # evaluation of that family in between
+    fam_r = [o for o in evals if o[1] in ('llA', 'llB', 'postA', 'hier', 'llF',
+                                          'pred') or o[1].startswith('ctrl:')]
+    for a in fam_r:
+        for b in fam_r:
+            if a != b:
+                hist.append({'ops': [a, b, a]})
     # an object reconfigured between two of its own evaluations
     for own_mut, name in (('mut_swap_llF', 'llF'), ('mut_sib_refix', 'predR2')):
         own_ops = [o for o in evals if o[1] == name]
@@ -749,7 +805,7 @@ def build(tier, seed):
         for b in eops:
             if not b[0].startswith('mut_'):
                 eh.append({'world': 'errors', 'ops': [a, b]})
-    for code in ERR_KINDS:
+    for code in list(ERR_KINDS) + ['R']:
         own = [o for o in eops if o[1] in ('ll' + code, 'pred' + code,
                                            'ctrl' + code, code)]
         for a in own:
@@ -825,3 +881,10 @@ META = {
                   'multi-process schedules are covered by the reduction stated in '
                   'DESIGN §4 C19. SBML objects on RefSimulation.',
 }
+META['level_text'] += (
+    ' Also: for every error model kind (and a reduced user mechanistic model) a lik'
+    "elihood, predictive model and controller built from the user's object under al"
+    'l ordered pairs and own triples of evaluations / renames / re-fixes; posterior'
+    "s taken from a controller or built from the user's filter in mid-history; tabl"
+    'es with regimens; repeats of one operation within a history are required to be'
+    ' bit-identical (every a-b-a history around numerically integrated models).')
